@@ -185,3 +185,180 @@ Definition rt_field_by_name_p (env : senv) (pe : penv) (t : ty) (f : N) : option
             end)
   | _ => None
   end.
+
+(* ------------------------------------------------------------------ validateFieldMapping *)
+
+(* fieldCheckers: joined target path -> handlerPair; the closure stored as its invoke function (by number) and the
+   successor field type that closure captured.  A Go map: an assignment to a key that is there replaces the entry *)
+Definition fcheckers : Type := list (path * (nat * ty)).
+
+Fixpoint fc_set (k : path) (c : nat * ty) (l : fcheckers) : fcheckers :=
+  match l with
+  | [] => [(k, c)]
+  | (k', c') :: l' => if path_eqb k k' then (k, c) :: l' else (k', c') :: fc_set k c l'
+  end.
+
+(* at == assignableTypeX ; checkAssignable itself is Model/FieldMap.v's check_assignable on this universe
+   (property C07 ties compose/utils.go:checkAssignable to its own model) *)
+Definition assn_is (name : string) (a : assn) : bool :=
+  match a with
+  | MustNot => String.eqb name "MustNot"
+  | Must => String.eqb name "Must"
+  | May => String.eqb name "May"
+  end.
+
+(* t = t.Elem() under `case reflect.Ptr` *)
+Definition rt_elem_ptr (t : ty) : ty := match t with TPtr u => u | _ => t end.
+
+(* reflect.TypeOf(a).AssignableTo(t) for a non-nil dynamic type *)
+Definition rt_assignable_to (d : option ty) (t : ty) : bool :=
+  match d with Some d' => assignable d' t | None => false end.
+
+(* for k, v := range fieldCheckers { … }: the body threads the map of mapped values and may return an error;
+   Go's iteration order is arbitrary — the list order stands for one of them *)
+Fixpoint fc_for_each (l : fcheckers) (f : path -> nat * ty -> fmap -> res fmap) (acc : fmap) : res fmap :=
+  match l with
+  | [] => Ok acc
+  | (k, c) :: l' => match f k c acc with Ok acc' => fc_for_each l' f acc' | e => e end
+  end.
+
+(* for key := range mValue { … } over the keys the map has when the loop starts *)
+Fixpoint keys_for_each (ks : list path) (f : path -> fmap -> res fmap) (acc : fmap) : res fmap :=
+  match ks with
+  | [] => Ok acc
+  | k :: ks' => match f k acc with Ok acc' => keys_for_each ks' f acc' | e => e end
+  end.
+Definition fm_for_each_key (m : fmap) (f : path -> fmap -> res fmap) : res fmap :=
+  keys_for_each (map fst m) f m.
+
+(* mValue[key], err = v.invoke(mValue[key]); if err != nil { return nil, err } — the closures hand their
+   argument back unchanged when they accept it *)
+Definition fc_apply (chk : nat -> ty -> val -> bool) (v : nat * ty) (key : path) (m : fmap) : res fmap :=
+  let x := match fm_get key m with Some x => x | None => VNil end in
+  if chk (fst v) (snd v) x then Ok (fm_set key x m) else Err ECheck.
+
+(* ------------------------------------------------------------------ reflect.Value at request time (source side:
+   takeOne, checkAndExtractFromField, checkAndExtractFromMapKey, fieldMap)
+
+   A reflect.Value over the model's values: the zero Value ([None]), or a value together with
+   "its Kind is Interface" (what MapIndex on a map[string]any, Field on a field of type any, Elem on a
+   pointer to an interface give: a Value that still has to be unboxed) and CanInterface (exported). *)
+Record rvalue : Type := { rv_iface : bool; rv_can : bool; rv_val : val }.
+Definition rv : Type := option rvalue.
+
+(* the errors the source walkers return, as fieldMap tells them apart with errors.As *)
+Inductive gerr : Type := GErrKey | GErrIface | GErrOther.
+Definition gerr_class (e : gerr) : N := match e with GErrKey => EKey | _ => ESrc end.
+Inductive gres (A : Type) : Type := GOk (a : A) | GErr (e : gerr).
+Arguments GOk {A} a.
+Arguments GErr {A} e.
+
+(* reflect.ValueOf(x) *)
+Definition rv_of (x : val) : rv :=
+  match x with VNil => None | _ => Some {| rv_iface := false; rv_can := true; rv_val := x |} end.
+
+(* v.IsValid() *)
+Definition rv_is_valid (r : rv) : bool := match r with Some _ => true | None => false end.
+
+Definition val_kind_name (x : val) : string :=
+  match x with
+  | VNil => "Invalid" | VInt _ => "Int" | VStr _ => "String"
+  | VStruct _ _ => "Struct" | VPtr _ _ => "Ptr" | VMap _ _ _ => "Map"
+  end.
+
+(* v.Kind() == reflect.K (the Kind of the zero Value is Invalid) *)
+Definition rv_kind_is (k : string) (r : rv) : bool :=
+  match r with
+  | None => String.eqb k "Invalid"
+  | Some a => if rv_iface a then String.eqb k "Interface" else String.eqb k (val_kind_name (rv_val a))
+  end.
+
+(* v.Elem(): pointers and interface-kinded Values (reflect panics otherwise) *)
+Definition rv_elem (r : rv) : option rv :=
+  match r with
+  | Some a =>
+      if rv_iface a then Some (rv_of (rv_val a))
+      else match rv_val a with
+           | VPtr u (Some w) => Some (Some {| rv_iface := is_any u; rv_can := rv_can a; rv_val := w |})
+           | VPtr u None => Some None
+           | _ => None
+           end
+  | None => None
+  end.
+
+(* v.Type() (panics on the zero Value); the type of an interface-kinded Value is the interface type *)
+Definition rv_type (r : rv) : option (option ty) :=
+  match r with
+  | Some a => Some (if rv_iface a then Some TAny else dyn (rv_val a))
+  | None => None
+  end.
+
+(* v.Interface() (panics on the zero Value and on a Value obtained through an unexported field) *)
+Definition rv_interface (r : rv) : option val :=
+  match r with
+  | Some a => if rv_can a then Some (rv_val a) else None
+  | None => None
+  end.
+
+(* v.CanInterface() *)
+Definition rv_can_interface (r : rv) : bool := match r with Some a => rv_can a | None => false end.
+
+(* reflect.TypeOf(key).AssignableTo(v.Type().Key()) for a string key: maps only *)
+Definition rv_key_is_string (r : rv) : option bool :=
+  match r with
+  | Some a => if rv_iface a then None else match rv_val a with VMap ks _ _ => Some ks | _ => None end
+  | None => None
+  end.
+
+(* v.MapIndex(reflect.ValueOf(key)) *)
+Definition rv_map_index (r : rv) (k : N) : option rv :=
+  match r with
+  | Some a =>
+      if rv_iface a then None else
+      match rv_val a with
+      | VMap _ e (Some es) =>
+          Some (match aget k es with
+                | Some x => Some {| rv_iface := is_any e; rv_can := true; rv_val := x |}
+                | None => None
+                end)
+      | VMap _ _ None => Some None
+      | _ => None
+      end
+  | None => None
+  end.
+
+(* fieldByName(v, name, false) of field_mapping.go on a struct Value, for DIRECT fields (a promoted name below
+   an interface-typed slot is outside the model): the zero Value when the struct has no such field; the field —
+   absent in the sparse value = the zero value of its type — otherwise. reflect panics on a non-struct. *)
+Definition rv_field_by_name (env : senv) (r : rv) (name : N) : option (gres rv) :=
+  match r with
+  | Some a =>
+      if rv_iface a then None else
+      match rv_val a with
+      | VStruct n fs =>
+          Some (GOk (match lookup_field env n name with
+                     | Some (ex, ft) =>
+                         Some {| rv_iface := is_any ft; rv_can := ex && rv_can a;
+                                 rv_val := match aget name fs with Some x => x | None => zero ft end |}
+                     | None => None
+                     end))
+      | _ => None
+      end
+  | None => None
+  end.
+
+(* t.Kind() == reflect.K on a reflect.Type that may be nil (the call panics then) *)
+Definition rt_okind_is (k : string) (t : option ty) : option bool :=
+  match t with Some t' => Some (rt_kind_is k t') | None => None end.
+
+(* how the loop of fieldMap over one source path ends: the value at the end of the path, `return nil, err`,
+   or `continue loop` (the mapping is skipped) *)
+Inductive path_outcome : Type := PDone (taken : val) | PReturn (e : gerr) | PContinueOuter.
+
+(* errors.As(err, &v) with v of type *errT *)
+Definition gerr_is (name : string) (e : gerr) : bool :=
+  match e with
+  | GErrKey => String.eqb name "errMapKeyNotFound"
+  | GErrIface => String.eqb name "errInterfaceNotValidForFieldMapping"
+  | GErrOther => false
+  end.
